@@ -133,6 +133,12 @@ func (s *RSchema) Compile() error {
 func (s *RSchema) doCompile() error {
 	content := s.File.Content()
 
+	if content.Len() == 0 {
+		err := kit.NewJSchemaError(s.File, errs.ErrEmptySchema.F())
+		err.SetIndex(bytes.Index(0))
+		return err
+	}
+
 	if content.Byte(0) != '/' {
 		return s.newJSchemaError(errs.ErrRegexUnexpectedStart, 0, content.Byte(0))
 	}
